@@ -605,6 +605,12 @@ class Sim(object):
         self.drain_indications()
         return {'wire_n': len(self.wire), 'ind_n': len(self.indications),
                 'closed': self.all_closed(), 'timer': self.timer_running,
-                'state': self.state(), 'outcome': self.outcome,
-                'killed_flag': self.provider._is_killed.is_set()
-                if hasattr(self.provider, '_is_killed') else None}
+                'state': self.state(), 'outcome': self.outcome}
+
+    def kill_returns(self, timeout=5.0):
+        """Public-API probe: after run() has ended, provider.kill() must return."""
+        import threading
+        t = threading.Thread(target=self.provider.kill, daemon=True)
+        t.start()
+        t.join(timeout)
+        return not t.is_alive()
